@@ -40,6 +40,16 @@ pub(crate) fn run() {
                     Err(_) => json!({"panic": true}),
                 }
             }
+            "parse" => {
+                // only the language server's own grammar parser (step 1 of `analyze`)
+                match std::panic::catch_unwind(|| {
+                    let mut g = crate::parol_ls_grammar::ParolLsGrammar::new();
+                    crate::parol_ls_parser::parse(&text, "input.par", &mut g).is_ok()
+                }) {
+                    Ok(ok) => json!({"ok": ok}),
+                    Err(_) => json!({"panic": true}),
+                }
+            }
             _ => json!({"error": "unknown op"}),
         };
         println!("{out}");
